@@ -44,6 +44,7 @@ class Sim:
         self.users = []
         self.snaps = []
         self.clients = {}
+        self.client_user = {}
         self.events = set()
         self.counts = {}
         self.step = 0
@@ -100,6 +101,19 @@ class Sim:
         self.events.add('persistent-client')
         return self.clients[j]
 
+    async def session(self, j, u):
+        """Repository object for client j working as user u. A long-lived client that is already
+        unlocked as u keeps working without unlocking again (one library session)."""
+        repo = self.client(j)
+        j = j % 3
+        if j != 0 and self.client_user.get(j) == u.uid:
+            self.events.add('session-reused-without-unlock')
+            return repo
+        await repo.unlock(password=u.password, key=u.key)
+        if j != 0:
+            self.client_user[j] = u.uid
+        return repo
+
     def reader(self, u):
         if u.reader is None:
             u.reader = refimpl.Reader(self.config_bytes, u.key, u.password)
@@ -109,10 +123,13 @@ class Sim:
         import copy
         pw = self.pw_prefix + b'0' if self.encrypted else None
 
+        init_repo = world.repository(self.backend(), self.n)
+
         async def go():
-            repo = world.repository(self.backend(), self.n)
-            return await repo.init(password=pw, settings=copy.deepcopy(self.cfg['settings']))
+            return await init_repo.init(password=pw, settings=copy.deepcopy(self.cfg['settings']))
         res, out = self.run(go())
+        self.clients[1] = init_repo       # the object that ran init stays usable as an unlocked session of user 0
+        self.client_user[1] = 0
         self.printed.append(out)
         key = refimpl.dumps(res.key) if res.key is not None else None
         self.config_bytes = self.store.objects['config']
@@ -175,7 +192,7 @@ class Sim:
         self.events.add('user:' + kind)
         return None
 
-    def _write_fileset(self, slot, files):
+    def _write_fileset(self, slot, files, bulk=0):
         src = os.path.join(self.work, f'src{slot}')
         env.rmtree(src)
         os.makedirs(src)
@@ -184,6 +201,9 @@ class Sim:
             path = self.paths[p % len(self.paths)]
             spec = self.cfg['contents'][c % len(self.cfg['contents'])]
             specs.append({'path': path, 'content': spec, 'mtime_ns': 1_500_000_000_000_000_000 + (c % 97) * 1000 + p % 13})
+        if bulk:
+            mx = self.cfg['settings']['chunking']['max_length']
+            specs.append({'path': 'bulk.bin', 'content': [['r', 7000 + bulk, bulk * mx]], 'mtime_ns': 1_500_000_000_000_000_777})
         seen, uniq = set(), []
         for s in specs:
             if s['path'] not in seen:
@@ -197,8 +217,7 @@ class Sim:
         return src, model
 
     async def _snapshot_coro(self, u, client, src, note):
-        repo = self.client(client)
-        await repo.unlock(password=u.password, key=u.key)
+        repo = await self.session(client, u)
         return await repo.snapshot(paths=[Path(src)], note=note)
 
     def _register_snapshot(self, u, res, model, note, fileset):
@@ -210,9 +229,11 @@ class Sim:
 
     def op_snapshot(self, op, slot=0):
         u = self.user(op['user'])
-        src, model = self._write_fileset(slot, op['files'])
+        src, model = self._write_fileset(slot, op['files'], op.get('bulk', 0))
+        if op.get('bulk'):
+            self.events.add('bulk-snapshot')
         note = (self.cfg.get('note_prefix', 'note-') + str(self.step)) if op.get('note') else None
-        fileset = tuple(sorted((p % len(self.paths), c % len(self.cfg['contents'])) for p, c in op['files']))
+        fileset = tuple(sorted((p % len(self.paths), c % len(self.cfg['contents'])) for p, c in op['files'])) + (('bulk', op.get('bulk', 0)),)
         before_log = len(self.store.log)
         prior = [s for s in self.live() if s.family == u.family and s.fileset == fileset and model]
         try:
@@ -236,12 +257,19 @@ class Sim:
 
     def _table(self, s):
         rd = self.reader(self.users[s.owner])
-        objs = self.store.objects
-        return rd.read_snapshot(s.location, objs[s.location])['chunks']
+        body = self.store.objects[s.location]
+        c = getattr(s, '_table_cache', None)
+        if c is None or c[0] is not body:
+            c = s._table_cache = (body, rd.read_snapshot(s.location, body)['chunks'], {})
+        return c[1]
 
     def _chunk_locs(self, s):
         rd = self.reader(self.users[s.owner])
-        return {rd.chunk_location(d) for d in self._table(s)}
+        table = self._table(s)
+        memo = s._table_cache[2]
+        if 'locs' not in memo:
+            memo['locs'] = frozenset(rd.chunk_location(d) for d in table)
+        return set(memo['locs'])
 
     @contextlib.contextmanager
     def _failing_delete(self, nth):
@@ -286,8 +314,7 @@ class Sim:
             self.events.add('multi-delete')
 
         async def go():
-            repo = self.client(op.get('client', 0))
-            await repo.unlock(password=u.password, key=u.key)
+            repo = await self.session(op.get('client', 0), u)
             await repo.delete_snapshots([v.name for v in victims], confirm=False)
         raised = None
         try:
@@ -336,8 +363,7 @@ class Sim:
         orphans = fam_chunks - referenced
 
         async def go():
-            repo = self.client(op.get('client', 0))
-            await repo.unlock(password=u.password, key=u.key)
+            repo = await self.session(op.get('client', 0), u)
             await repo.clean()
         try:
             with self._failing_delete(op.get('fail_delete')):
@@ -363,8 +389,7 @@ class Sim:
         tgt = os.path.join(self.work, f'restore-{self.step}-{s.seq}')
 
         async def go():
-            repo = self.client(client)
-            await repo.unlock(password=u.password, key=u.key)
+            repo = await self.session(client, u)
             return await repo.restore(snapshot_regex=f'^{s.name}$', path=Path(tgt))
         try:
             res, _ = self.run(go())
@@ -391,8 +416,7 @@ class Sim:
         u = self.user(op['user'])
 
         async def go():
-            repo = self.client(op.get('client', 0))
-            await repo.unlock(password=u.password, key=u.key)
+            repo = await self.session(op.get('client', 0), u)
             await repo.list_snapshots(header=False)
         try:
             _, out = self.run(go())
@@ -517,8 +541,7 @@ class Sim:
         names = [v.name] + ([mine[0].name] if mine and op.get('with_own') else [])
 
         async def go():
-            repo = self.client(op.get('client', 0))
-            await repo.unlock(password=u.password, key=u.key)
+            repo = await self.session(op.get('client', 0), u)
             await repo.delete_snapshots(names, confirm=False)
         raised = False
         try:
@@ -544,8 +567,7 @@ class Sim:
         tgt = os.path.join(self.work, f'xrestore-{self.step}')
 
         async def go():
-            repo = self.client(op.get('client', 0))
-            await repo.unlock(password=u.password, key=u.key)
+            repo = await self.session(op.get('client', 0), u)
             res = await repo.restore(snapshot_regex=f'^{v.name}$', path=Path(tgt))
             out = io.StringIO()
             with contextlib.redirect_stdout(out):
@@ -598,6 +620,9 @@ class Sim:
             rd = self.reader(self.users[s.owner])
             if s.location not in objs:
                 return fail('live-snapshot-missing', f'object of live snapshot {s.name[:12]} (user {s.owner}) is gone')
+            ver = getattr(s, '_verified', None)
+            if ver is not None and all(objs.get(k) is v for k, v in ver.items()):
+                continue        # nothing this snapshot depends on has changed since it was last decoded
             if rd.snapshot_location(objs[s.location]) != s.location:
                 return fail('reference-reader', f'snapshot {s.name[:12]} is not stored under the documented location')
             parsed = rd.read_snapshot(s.location, objs[s.location])
@@ -607,6 +632,11 @@ class Sim:
                 wrong = sorted(p for p in set(got) | set(s.files) if got.get(p) != s.files.get(p))
                 return fail('live-snapshot-damaged', f'live snapshot {s.name[:12]} (user {s.owner}) no longer yields '
                             f'the captured contents: {wrong[:3]}')
+            dep = {s.location: objs[s.location]}
+            for d in parsed['chunks']:
+                loc = rd.chunk_location(d)
+                dep[loc] = objs.get(loc)
+            s._verified = dep
         if self.extra_invariant is not None:
             f = self.extra_invariant(self, objs)
             if f:
@@ -684,7 +714,7 @@ def make_machine(prop, tier, ctx, *, checks, encrypted=None, weights=None, extra
     """Rule-based machine whose steps are JSON ops applied to a Sim; the op list is the case."""
     stats, known, check_time = ctx['stats'], ctx['known'], ctx['check_time']
     w = dict(snapshot=3, add_user=2, delete=2, clean=1, restore=1, list=1, concurrent=1,
-             cross=0, plant=0, unlock_wrong=0, faulty=0)
+             cross=0, plant=0, unlock_wrong=0, faulty=0, bulk=0)
     w.update(weights or {})
 
     class Machine(RuleBasedStateMachine):
@@ -731,6 +761,8 @@ def make_machine(prop, tier, ctx, *, checks, encrypted=None, weights=None, extra
 
     add('snapshot', w['snapshot'], dict(u=small, f=fileset, c=st.integers(0, 2), n=st.booleans()),
         lambda u, f, c, n: {'op': 'snapshot', 'user': u, 'files': f, 'client': c, 'note': n})
+    add('bulk_snapshot', w['bulk'], dict(u=small, f=fileset, c=st.integers(1, 2), b=st.sampled_from([1040, 1100, 1500])),
+        lambda u, f, c, b: {'op': 'snapshot', 'user': u, 'files': f, 'client': c, 'note': True, 'bulk': b})
     add('add_user', w['add_user'], dict(k=st.sampled_from(['shared', 'clone', 'independent']), of=small, kdf=st.integers(0, 2)),
         lambda k, of, kdf: {'op': 'add_user', 'kind': k, 'of': of, 'kdf': kdf})
     add('delete', w['delete'], dict(u=small, p=st.lists(small, min_size=1, max_size=3), c=st.integers(0, 2)),
